@@ -35,6 +35,12 @@ func vcForallBool(f func(bool) bool) bool  { return true }
 func vcMod(p interface{})             {}
 func vcModElems(n int, p interface{}) {}
 
+// vcMapAllU64(m, f): f holds for the value stored under every key present in m.
+func vcMapAllU64(m map[string]uint64, f func(uint64) bool) bool { return true }
+
+// vcHasKey(m, k): k is present in m.
+func vcHasKey(m map[string]uint64, k string) bool { _, ok := m[k]; return ok }
+
 // vcFresh(x): the object x refers to (pointer target, backing array of a slice, map)
 // was allocated by the function the clause belongs to. vcSameArray(a, b): the slices
 // a and b share their backing array.
@@ -557,6 +563,22 @@ func rdValueWF(r *reader) bool {
 		return vcIsType(r.value)
 	}
 	return false
+}
+
+// ---------------------------------------------------------------------------
+// Symbol tables (Ion spec, "Symbols": system symbols 1-9, then each import's max_id slots
+// in declaration order, then the local symbols).
+
+// sstWF: a shared table never has more symbols than its max_id, and every entry of its
+// text index points at one of its symbols.
+func sstWF(s *sst) bool {
+	return uint64(len(s.symbols)) <= s.maxID &&
+		vcMapAllU64(s.index, func(id uint64) bool { return 1 <= id && id <= uint64(len(s.symbols)) })
+}
+
+// lstWF: one offset per import, the first import starts at 0, the system table first.
+func lstWF(t *lst) bool {
+	return len(t.imports) >= 1 && len(t.offsets) == len(t.imports) && t.offsets[0] == 0
 }
 
 // ---------------------------------------------------------------------------
